@@ -15,9 +15,9 @@ mv "$demo" /tmp/demo_$name.rs
 base=$(cargo nextest run --workspace --no-fail-fast --tool-config-file pb:/w/lib/nextest.toml --profile pb --test-threads 8 --offline 2>&1 | grep -E "Summary" | tail -1)
 mv /tmp/demo_$name.rs "$demo"
 with=$(cargo test --offline --test demo_$pid 2>&1 | grep -E "^test result|error: test failed|panicked" | head -3 | tr '\n' ' ')
-git stash push -q -- src
+git apply -R $out/patch.diff
 without=$(cargo test --offline --test demo_$pid 2>&1 | grep -E "^test result|error: test failed" | head -2 | tr '\n' ' ')
-git stash pop -q
+git apply $out/patch.diff
 cp "$demo" $out/
 python3 - "$out" "$pid" "$base" "$with" "$without" "$wt" <<'PY'
 import json,sys,os
